@@ -21,3 +21,4 @@ def run(ck):
     sampling.r11_rounding_epsilon(ck, P)
     sampling.r13_weight_vector_tracks_position(ck, P)
     sampling.r14_float_bilinear_weights(ck, P)
+    sampling.r15_mask_stride_follows_pipeline(ck, P)
